@@ -29,6 +29,7 @@ import CRProofs.Geom
 import CRProofs.Quad
 import CRProofs.Meet
 import CRProofs.Index
+import CRModel.ShapeObj
 namespace CR.Props.C06
 open CR CR.Geom CR.Index
 
@@ -576,5 +577,151 @@ theorem C06_filterObstacles_iff (meets : List Pt → Prim → Bool) (n : Net) (o
 theorem C06_filterObstacles_nodup (meets : List Pt → Prim → Bool) (n : Net) (obs : List Obst) :
     (filterObstacles meets n obs).Nodup :=
   nodup_dedupInto _ [] List.nodup_nil
+
+/-! ## Part IV — shapes as objects: derived attributes follow the attributes they are derived from
+    (model CRModel/ShapeObj.lean; tied to the source by translation in CRProps/T06.lean) -/
+
+open CR.ShapeObj
+
+theorem foldl_min_x (vs : List Pt) : ∀ (m : Pt) (a : Rat),
+    (vs.foldl (fun m u => (⟨min m.x u.x, min m.y u.y⟩ : Pt)) m).x ≤ a ↔ (m.x ≤ a ∨ ∃ u ∈ vs, u.x ≤ a) := by
+  induction vs with
+  | nil => intro m a; simp
+  | cons v vs ih => intro m a; simp only [List.foldl_cons, ih, min_le_iff, List.mem_cons, exists_eq_or_imp]; tauto
+
+theorem foldl_min_y (vs : List Pt) : ∀ (m : Pt) (a : Rat),
+    (vs.foldl (fun m u => (⟨min m.x u.x, min m.y u.y⟩ : Pt)) m).y ≤ a ↔ (m.y ≤ a ∨ ∃ u ∈ vs, u.y ≤ a) := by
+  induction vs with
+  | nil => intro m a; simp
+  | cons v vs ih => intro m a; simp only [List.foldl_cons, ih, min_le_iff, List.mem_cons, exists_eq_or_imp]; tauto
+
+theorem foldl_max_x (vs : List Pt) : ∀ (m : Pt) (a : Rat),
+    a ≤ (vs.foldl (fun m u => (⟨max m.x u.x, max m.y u.y⟩ : Pt)) m).x ↔ (a ≤ m.x ∨ ∃ u ∈ vs, a ≤ u.x) := by
+  induction vs with
+  | nil => intro m a; simp
+  | cons v vs ih => intro m a; simp only [List.foldl_cons, ih, le_max_iff, List.mem_cons, exists_eq_or_imp]; tauto
+
+theorem foldl_max_y (vs : List Pt) : ∀ (m : Pt) (a : Rat),
+    a ≤ (vs.foldl (fun m u => (⟨max m.x u.x, max m.y u.y⟩ : Pt)) m).y ↔ (a ≤ m.y ∨ ∃ u ∈ vs, a ≤ u.y) := by
+  induction vs with
+  | nil => intro m a; simp
+  | cons v vs ih => intro m a; simp only [List.foldl_cons, ih, le_max_iff, List.mem_cons, exists_eq_or_imp]; tauto
+
+/-- The bounding box a `Polygon` object stores (`_min`, `_max` = column-wise min / max of its vertices) is the box
+    `inBBox` speaks about, so the object's containment test is the model's `polyContains` — for every predicate standing
+    for shapely's point test. A polygon has at least one vertex (numpy refuses the empty array). -/
+theorem C06_polyshape_contains (ptIn : List Pt → Pt → Bool) (vs : List Pt) (h : vs ≠ []) (p : Pt) :
+    (PolyShape.ofVertices vs).contains ptIn p = (inBBox vs p && ptIn vs p) := by
+  obtain ⟨v, vs, rfl⟩ := List.exists_cons_of_ne_nil h
+  unfold PolyShape.contains PolyShape.ofVertices inBBox colMin colMax
+  congr 1
+  rw [Bool.eq_iff_iff]
+  simp only [Bool.and_eq_true, decide_eq_true_eq, List.any_eq_true, foldl_min_x, foldl_min_y, foldl_max_x, foldl_max_y,
+    List.mem_cons, exists_eq_or_imp]
+  tauto
+
+/-- … hence, with the exact ring test, the closed vertex ring (the prefilter is redundant). -/
+theorem C06_polyshape_denotes (vs : List Pt) (h : vs ≠ []) (p : Pt) :
+    (PolyShape.ofVertices vs).contains inRing p = inRing vs p := by
+  rw [C06_polyshape_contains inRing vs h p]
+  exact C06_poly_bbox_redundant vs p
+
+example : (PolyShape.ofVertices [⟨0, 0⟩, ⟨4, 0⟩, ⟨0, 4⟩]).contains inRing ⟨2, 2⟩ = true ∧
+    (PolyShape.ofVertices [⟨0, 0⟩, ⟨4, 0⟩, ⟨0, 4⟩]).contains inRing ⟨3, 3⟩ = false := by decide +kernel
+
+/-- A circle is constructed with its export in step … -/
+theorem C06_circobj_new_sync (r : Rat) (c : Option Pt) : (CircObj.new r c).Sync := by
+  simp [CircObj.new, CircObj.Sync, CircObj.refresh]
+
+/-- … and every setter keeps it in step (the export is rebuilt from the NEW radius / center). -/
+theorem C06_circobj_step_sync (o : CircObj) (op : CircOp) (h : o.Sync) : (o.step op).Sync := by
+  unfold CircObj.Sync at h
+  cases op <;> simp [CircObj.step, CircObj.setRadius, CircObj.setCenter, CircObj.Sync, CircObj.refresh, h]
+
+/-- After any history of attribute assignments the exported geometry of a circle is the one of its current radius and
+    center (the disc of radius r/2: known finding, `C06_circle_export_iff`). -/
+theorem C06_circobj_ops (r : Rat) (c : Option Pt) (ops : List CircOp) : (ops.foldl CircObj.step (CircObj.new r c)).Sync := by
+  have : ∀ (o : CircObj), o.Sync → (ops.foldl CircObj.step o).Sync := by
+    induction ops with
+    | nil => intro o h; exact h
+    | cons op ops ih => intro o h; exact ih _ (C06_circobj_step_sync o op h)
+  exact this _ (C06_circobj_new_sync r c)
+
+theorem C06_circobj_exported (o : CircObj) (h : o.Sync) (p : Pt) :
+    o.exported p = (Prim.circ o.radius o.center).exported p := by
+  unfold CircObj.Sync at h
+  simp [CircObj.exported, h, Prim.exported]
+
+theorem C06_rectobj_new_sync (l w : Rat) (c : Option Pt) (o : Rat × Rat) : (RectObj.new l w c o).Sync := by
+  simp [RectObj.new, RectObj.Sync]
+
+/-- Every setter drops both caches, every read fills a cache from the current attributes: the invariant survives any
+    operation. -/
+theorem C06_rectobj_step_sync (ptIn : List Pt → Pt → Bool) (o : RectObj) (op : RectOp) (h : o.Sync) : (o.step ptIn op).Sync := by
+  obtain ⟨hv, hp⟩ := h
+  have rv : (o.readVertices.1).Sync ∧ o.readVertices.2 = o.verts ∧ o.readVertices.1.verts = o.verts := by
+    unfold RectObj.readVertices
+    cases hc : o.vertices with
+    | some vs => exact ⟨⟨hv, hp⟩, hv vs hc, rfl⟩
+    | none =>
+      refine ⟨⟨?_, ?_⟩, rfl, rfl⟩
+      · intro vs h'; simp only [Option.some.injEq] at h'; exact h'.symm
+      · intro r h'; exact hp r h'
+  have rp : (o.readPolygon.1).Sync := by
+    unfold RectObj.readPolygon
+    cases hc : o.polygon with
+    | some r => exact ⟨hv, hp⟩
+    | none =>
+      refine ⟨?_, ?_⟩
+      · intro vs h'; exact rv.1.1 vs h'
+      · intro r h'
+        simp only [Option.some.injEq] at h'
+        rw [← h', rv.2.1]; exact rv.2.2.symm
+  cases op with
+  | setLength v => simp [RectObj.step, RectObj.setLength, RectObj.invalidate, RectObj.Sync]
+  | setWidth v => simp [RectObj.step, RectObj.setWidth, RectObj.invalidate, RectObj.Sync]
+  | setCenter v => simp [RectObj.step, RectObj.setCenter, RectObj.invalidate, RectObj.Sync]
+  | setOrientation v => simp [RectObj.step, RectObj.setOrientation, RectObj.invalidate, RectObj.Sync]
+  | readVertices => exact rv.1
+  | readPolygon => exact rp
+  | query p => exact rp
+
+/-- On a rectangle whose caches are in step, `contains_point` answers for the polygon of the CURRENT length, width, center
+    and orientation — with the exact ring test: `rectContains`, i.e. the l-by-w box at that pose (`C06_rect_ring_eq_box`). -/
+theorem C06_rectobj_query (ptIn : List Pt → Pt → Bool) (o : RectObj) (h : o.Sync) (p : Pt) :
+    (o.containsPoint ptIn p).2 = ptIn o.verts p := by
+  obtain ⟨hv, hp⟩ := h
+  unfold RectObj.containsPoint RectObj.readPolygon
+  cases hc : o.polygon with
+  | some r => simp [hp r hc]
+  | none =>
+    unfold RectObj.readVertices
+    cases hc2 : o.vertices with
+    | some vs => simp [hv vs hc2]
+    | none => simp
+
+/-- After any history of attribute assignments, reads and queries, a rectangle answers a containment query for its
+    current pose (the class of defect repaired in 5db4e74: a stale cache after a setter). -/
+theorem C06_rectobj_ops (ptIn : List Pt → Pt → Bool) (l w : Rat) (c : Option Pt) (o : Rat × Rat) (ops : List RectOp) (p : Pt) :
+    let r := ops.foldl (RectObj.step ptIn) (RectObj.new l w c o)
+    (r.containsPoint ptIn p).2 = ptIn (rectVerts r.length r.width r.center r.orientation.1 r.orientation.2) p := by
+  intro r
+  have : ∀ (o : RectObj), o.Sync → (ops.foldl (RectObj.step ptIn) o).Sync := by
+    induction ops with
+    | nil => intro o h; exact h
+    | cons op ops ih => intro o h; exact ih _ (C06_rectobj_step_sync ptIn o op h)
+  exact C06_rectobj_query ptIn r (this _ (C06_rectobj_new_sync l w c o)) p
+
+/-- Witness that the invariant has content: a length assignment that keeps the caches (what the code did before the
+    repair) leaves a rectangle that answers for its OLD length. -/
+theorem C06_witness_rect_stale :
+    let o := ((RectObj.new 4 2 none (1, 0)).containsPoint inRing ⟨0, 0⟩).1
+    let bad : RectObj := { o with length := 2 }
+    ¬ bad.Sync ∧ (bad.containsPoint inRing ⟨3 / 2, 0⟩).2 = true ∧ inRing bad.verts ⟨3 / 2, 0⟩ = false := by
+  refine ⟨?_, by decide +kernel, by decide +kernel⟩
+  intro h
+  have := h.1 _ rfl
+  revert this
+  decide +kernel
 
 end CR.Props.C06
